@@ -76,18 +76,29 @@ theorem rem_hostStep {c : Cfg} {sc : Script} {now wake : Nat} {h : Host} (hi : H
       · exact Nat.le_refl _
   | wake =>
     have hp := hpre.2.2.1 rfl
-    have round : ∀ h1 : Host, h1.ph = .reading → h1.conn = h.conn → rem c now (h1.pollRound now) ≤ rem c now h := by
-      intro h1 h1p h1c
-      have hf := pollRound_frame now h1
-      rcases pollRound_ph now h1 with hq | hq
+    have round : ∀ (g : Host → Host) (h1 : Host),
+        ((g h1).start = h1.start ∧ (g h1).cbeg = h1.cbeg ∧ (g h1).conn = h1.conn ∧ (g h1).intr = h1.intr) →
+        (((g h1).ph = h1.ph ∧ (g h1).res = h1.res) ∨ ((g h1).ph = .finished ∧ (g h1).res = .done)) →
+        h1.ph = .reading → h1.conn = h.conn → rem c now (g h1) ≤ rem c now h := by
+      intro g h1 hf hq h1p h1c
+      rcases hq with hq | hq
       · simp only [rem, hq.1, h1p, hf.2.2.1, h1c, hp]; exact Nat.le_refl _
       · simp only [rem, hq.1]; omega
-    simp only [hostStep]
-    split
-    · split
+    have hcore : rem c now (h.wakeCore c now) ≤ rem c now h := by
+      simp only [Host.wakeCore]
+      split
+      · split
+        · simp [rem]
+        · exact round (Host.pollRound now) _ (pollRound_frame _ _) (pollRound_ph _ _) hp rfl
+      · split
+        · exact round (Host.oneRound now) _ (oneRound_frame _ _) (oneRound_ph _ _) hp rfl
+        · exact round (Host.pollRound now) _ (pollRound_frame _ _) (pollRound_ph _ _) hp rfl
+    have hself : ∀ x : Host, rem c now (x.selfTimeout c now) ≤ rem c now x := by
+      intro x; simp only [Host.selfTimeout]; split
       · simp [rem]
-      · exact round _ hp rfl
-    · exact round _ hp rfl
+      · exact Nat.le_refl _
+    simp only [hostStep]
+    exact Nat.le_trans (hself _) hcore
   | scan =>
     simp only [hostStep]; split
     · simp only [rem]; exact Nat.le_refl _
